@@ -28,6 +28,16 @@ Proof.
   intros H. destruct directive_variables_not_listed as (ss & n & Hin & Hnot). apply Hnot. apply H. now right.
 Qed.
 
+(* a follow-up step adds the id of the object it extends under the name `id`: every other variable keeps the client's
+   value; a client variable that is itself called `id` does not (listed finding C02-variable-named-id) *)
+Theorem follow_up_steps_keep_other_variables : forall client_vars listed node_id n,
+  n <> "id" -> assoc n (step_variables client_vars listed node_id) = assoc n (forwarded client_vars listed).
+Proof. exact other_variables_keep_the_clients_value. Qed.
+Theorem C02_client_id_refuted :
+  exists client_vars listed node_id, assoc "id" (forwarded client_vars listed) = Some (JNum "7") /\
+    assoc "id" (step_variables client_vars listed node_id) = Some (JStr "h1").
+Proof. exact client_variable_named_id_is_replaced. Qed.
+
 Example c02_nonvacuous :
   variables_list [SField "a" "f" [("x", VVar "v1"); ("o", VObj [("k", VList [VVar "v2"; VLit "3"])])] []
                          [SInline "T" [] [SField "g" "g" [("y", VVar "v3")] [] []]]]
@@ -38,3 +48,5 @@ Print Assumptions argument_variables_listed.
 Print Assumptions listed_variables_forwarded.
 Print Assumptions forwarded_values_unchanged.
 Print Assumptions C02_vars_refuted.
+Print Assumptions follow_up_steps_keep_other_variables.
+Print Assumptions C02_client_id_refuted.
